@@ -35,6 +35,7 @@ import Gama.Lemmas.ExportRerun
 import Gama.Lemmas.ExportNet
 import Gama.Lemmas.ExportQuant
 import Gama.Lemmas.C06GN
+import Gama.Lemmas.ExportParseNeg
 namespace Gama.Props.C13Rerun
 open Gama Gama.Lin Gama.RA Gama.Gen.Obsdh Gama.C06RA Gama.TL Gama.Rerun Gama.Export
 
@@ -159,6 +160,20 @@ theorem C13_rerun_rounds (E : Env ℝ) (maxIter : Nat) (s s' : St ℝ) (it : Boo
       = some (⟨s'.σ, s'.xyz, s'.obs, 0⟩, true, false) := by
   obtain ⟨t, ht, h'⟩ := rerun_rounds E maxIter s s' it h hred m k
   rw [h', ht]
+
+/-! ## `Net.WF` of the parser's output: why `C13_parser_establishes_wf_partial` keeps its `_partial` after 6848bc2a -/
+
+/-- **NEG**: the full statement "`parseNet d = ok n → n.WF`" is still FALSE for the code: two families of accepted documents
+    remain whose network is not well-formed (= is not a fixed point of export ∘ parse) — E2, a `<vec>` with `from_dh` /
+    `to_dh` (stored by `process_vec`, deliberately not exported), and E3, a `<coordinates>` point that has no status (in
+    `PD`, skipped by `export_xml`, its cluster written).  E1 (`<dh dist stdev>`) went with 9f04c51, E4 (a `<coordinates>`
+    point overwritten later) with 6848bc2a.  Witnesses: the sample network's own export with one edit each (the unedited
+    sample network is well-formed and its export is read back: Props/C13.lean, `sampleNet.WF`, `C13_roundtrip_network`) -/
+theorem C13_parser_wf_exceptions_remain :
+    (∃ n, parseNet unaryCodec (fun _ => 7) sampleNet.par docVecDh = .ok n ∧ ¬ n.WF unaryCodec (fun _ => True) (fun _ => True)) ∧
+    (∃ n, parseNet unaryCodec (fun _ => 7) sampleNet.par docCoordNoStatus = .ok n ∧
+      ¬ n.WF unaryCodec (fun _ => True) (fun _ => True)) := by
+  exact ⟨acceptedNotWF_spec docVecDh e2_accepted, e3_not_wf⟩
 
 /-! ### non-vacuity -/
 
